@@ -269,11 +269,268 @@ def ops_with_vals(ops, ev, gib):
     return out
 
 
+# ------------------------------------------------------------------ sub-step interleavings
+def run_interleaved(samples_bytes, out_dir: Path, a, b, c, d):
+    """the real writer runs in a thread that stops BEFORE each of its file operations; the real
+    reader runs in this thread and lets the writer perform `a` operations before it starts, `b`
+    between its exists() test and its open(), `c` between its open() and its read(); then `d` more
+    operations and a second, complete reader.  Returns (total writer ops seen so far, exists seen by
+    reader 1, result 1, result 2)."""
+    import threading
+    import pathlib
+    import bblean._memory as mem
+    go, arrived = threading.Semaphore(0), threading.Semaphore(0)
+    state = {"finished": False, "ops": 0, "abort": False}
+
+    class _Abort(Exception):
+        pass
+
+    def gate():
+        arrived.release()
+        go.acquire()
+        if state["abort"]:
+            raise _Abort()
+        state["ops"] += 1
+
+    class FileProxy:
+        def __init__(self, f):
+            self._f = f
+
+        def write(self, x):
+            gate()
+            return self._f.write(x)
+
+        def flush(self):
+            gate()
+            return self._f.flush()
+
+        def truncate(self, *aa):
+            gate()
+            return self._f.truncate(*aa)
+
+        def fileno(self):
+            return self._f.fileno()
+
+        def __enter__(self):
+            return self
+
+        def __exit__(self, *aa):
+            gate()
+            self._f.close()
+            return False
+
+        def __getattr__(self, k):
+            return getattr(self._f, k)
+
+    fd_paths = {}
+    hooks = {"after_open_read": None}
+
+    def open_spy(path, *aa, **kw):
+        mode = kw.get("mode", aa[0] if aa else "r")
+        real_path = fd_paths.get(path, path) if isinstance(path, int) else path
+        mine = "max-rss" in Path(str(real_path)).name
+        if mine and any(ch in mode for ch in "wa+x"):
+            gate()
+            return FileProxy(builtins.open(path, *aa, **kw))
+        f = builtins.open(path, *aa, **kw)
+        if mine and hooks["after_open_read"]:
+            hooks["after_open_read"]()
+        return f
+
+    class OsProxy:
+        def __getattr__(self, k):
+            return getattr(os, k)
+
+        def fsync(self, fd):
+            try:
+                pth = os.readlink(f"/proc/self/fd/{fd}")
+            except OSError:
+                pth = ""
+            if "max-rss" in Path(pth).name:
+                gate()
+            return os.fsync(fd)
+
+        def replace(self, x, y):
+            if "max-rss" in Path(str(y)).name:
+                gate()
+            return os.replace(x, y)
+
+        def rename(self, x, y):
+            if "max-rss" in Path(str(y)).name:
+                gate()
+            return os.rename(x, y)
+
+        def open(self, path, *aa, **kw):
+            fd = os.open(path, *aa, **kw)
+            fd_paths[fd] = path
+            return fd
+
+    it = iter(samples_bytes)
+
+    class FakeMem:
+        def __init__(self, rss):
+            self.rss = rss
+
+    class FakeProc:
+        pid = -1
+
+        def __init__(self, pid=None):
+            pass
+
+        def memory_info(self):
+            try:
+                return FakeMem(next(it))
+            except StopIteration:
+                raise _Stop()
+
+        def children(self, recursive=False):
+            return []
+
+    class PsProxy:
+        Process = FakeProc
+        NoSuchProcess = Exception
+
+    class TimeProxy:
+        def sleep(self, x):
+            return None
+
+        def perf_counter(self):
+            return 0.0
+
+    saved = (mem.__dict__.get("open"), mem.os, mem.psutil, mem.time)
+    mem.open, mem.os, mem.psutil, mem.time = open_spy, OsProxy(), PsProxy(), TimeProxy()
+
+    def writer():
+        try:
+            mem.monitor_rss_process(out_dir / "monitor-rss.csv", 0.0, 0.0, 1)
+        except (_Stop, _Abort):
+            pass
+        finally:
+            state["finished"] = True
+            arrived.release()
+
+    th = threading.Thread(target=writer, daemon=True)
+    th.start()
+    arrived.acquire()                      # the writer stands before its first operation (or is done)
+
+    def advance(k):
+        for _ in range(k):
+            if state["finished"]:
+                return
+            go.release()
+            arrived.acquire()
+
+    def reader(b_ops, c_ops):
+        seen = {"exists": None}
+        real_exists = pathlib.Path.exists
+
+        def exists_spy(self, *aa, **kw):
+            r = real_exists(self, *aa, **kw)
+            if self.name == "max-rss.txt" and seen["exists"] is None:
+                seen["exists"] = r
+                advance(b_ops)
+            return r
+        hooks["after_open_read"] = lambda: advance(c_ops)
+        pathlib.Path.exists = exists_spy
+        try:
+            v = mem.get_peak_memory_gib(out_dir)
+            res = ("none",) if v is None else ("val", float(v))
+        except Exception as e:
+            res = ("error", f"{type(e).__name__}: {e}"[:120])
+        finally:
+            pathlib.Path.exists = real_exists
+            hooks["after_open_read"] = None
+        return seen["exists"], res
+    try:
+        advance(a)
+        ex1, r1 = reader(b, c)
+        ops1 = state["ops"]
+        advance(d)
+        _, r2 = reader(0, 0)
+        ops2 = state["ops"]
+    finally:
+        state["abort"] = True
+        while not state["finished"]:
+            go.release()
+            arrived.acquire()
+        th.join(timeout=5)
+        if saved[0] is None:
+            del mem.open
+        else:
+            mem.open = saved[0]
+        mem.os, mem.psutil, mem.time = saved[1], saved[2], saved[3]
+    return ops1, ops2, ex1, r1, r2
+
+
+def suite_monitor_interleave(seed, tier):
+    """every sub-step of the real reader interleaved with the writer's file operations"""
+    rng = random.Random(seed + 11)
+    r = Result("monitor-interleave")
+    n_seq = 6 if tier == "quick" else 40
+    per_seq = 40 if tier == "quick" else 400
+    terms, meta = [], []
+
+    def rterm(res):
+        return "RNone" if res[0] == "none" else f"(RSome {cfloat(res[1])})" if res[0] == "val" else "RError"
+    for _ in range(n_seq):
+        samples = gen_samples(rng)
+        gib = [x * (1 / 1024 ** 3) for x in samples]
+        mx, maxima = 0.0, []
+        for g in gib:
+            if g > mx:
+                mx = g
+                maxima.append(g)
+        T = 6 * len(maxima)
+        combos = [(a, b, c, d) for a in range(T + 1) for b in range(0, min(4, T - a) + 1)
+                  for c in range(0, min(7, T - a - b) + 1) for d in (0, 1, 5, 7)]
+        if len(combos) > per_seq:
+            combos = rng.sample(combos, per_seq)
+        for a, b, c, d in combos:
+            with tempfile.TemporaryDirectory(prefix="verif_mon_") as tmp:
+                ops1, ops2, ex1, r1, r2 = run_interleaved(samples, Path(tmp), a, b, c, d)
+            info = {"samples_bytes": samples, "schedule": [a, b, c, d]}
+            for res in (r1, r2):
+                if res[0] == "error":
+                    r.bad.append({"suite": "monitor-interleave", "what": f"reader raised: {res[1]}", **info})
+                elif res[0] == "val" and res[1] not in maxima:
+                    r.bad.append({"suite": "monitor-interleave", "what": f"reader obtained {res[1]!r}, never a "
+                                  "recorded peak", **info})
+            if r1[0] == "val" and (r2[0] == "none" or (r2[0] == "val" and r2[1] < r1[1])):
+                r.bad.append({"suite": "monitor-interleave", "what": "a later reader saw a smaller peak (or none) "
+                              f"than an earlier one: {r1} then {r2}", **info})
+            # the same schedule on Model/Monitor.v (exists+open is one model step at open time)
+            if ex1:
+                sched = [0] * (a + b) + [1] + [0] * c + [1]
+            else:
+                sched = [0] * a + [1]
+            done1 = sum(1 for x in sched if x == 0)
+            sched += [0] * max(0, ops2 - done1) + [2, 2]
+            terms.append(f"(let '(_, r1, r2) := exec2 {clist(sched, str)}%nat (writer {clist(gib, cfloat)} 0) fs0 "
+                         f"RStart RStart in rstate_eqb r1 (RDone {rterm(r1)}) && rstate_eqb r2 (RDone {rterm(r2)}))")
+            meta.append(info)
+    pre = ("From BB Require Import Model.Monitor.\nOpen Scope Z_scope.\n"
+           "Definition rres_eqb (a b : rres) : bool := match a, b with RNone, RNone | RError, RError => true "
+           "| RSome x, RSome y => feq_bits x y | _, _ => false end.\n"
+           "Definition rstate_eqb (a b : rstate) : bool := match a, b with RDone x, RDone y => rres_eqb x y "
+           "| _, _ => false end.\n")
+    out = eval_cases("monitor-il", pre, terms, shard=200)
+    for m, o in zip(meta, out):
+        if o.strip() != "true":
+            r.bad.append({"suite": "monitor-interleave", "what": "reader results differ from Model/Monitor.v "
+                          "(exec2) for this schedule", **m})
+    r.cases = len(terms)
+    r.nontrivial = len({(str(m["samples_bytes"]), tuple(m["schedule"])) for m in meta})
+    r.stats = {"sample_sequences": n_seq, "schedules": len(terms)}
+    r.samples = meta[:1]
+    return r
+
+
 def search_c20(seed, tier, failures):
     for kind, d in failures:
-        if isinstance(d, dict) and d.get("suite") == "monitor" and "differs from Model" not in d.get("what", "") \
+        if isinstance(d, dict) and d.get("suite") in ("monitor", "monitor-interleave") \
+                and "differ from Model" not in d.get("what", "") and "differs from Model" not in d.get("what", "") \
                 and "not the modelled" not in d.get("what", ""):
-            return {"violation": d["what"], "samples_bytes": d.get("samples_bytes")}
+            return {"violation": d["what"], "samples_bytes": d.get("samples_bytes"), "schedule": d.get("schedule")}
     rng = random.Random(seed + 1)
     for _ in range(400 if tier == "quick" else 5000):
         samples = gen_samples(rng)
@@ -294,6 +551,12 @@ def replay_c20(payload):
     fi = payload.get("failing_input")
     if not fi or not fi.get("samples_bytes"):
         return True
+    if fi.get("schedule"):
+        a, b, c, d = fi["schedule"]
+        with tempfile.TemporaryDirectory(prefix="verif_mon_") as tmp:
+            _, _, _, r1, r2 = run_interleaved(fi["samples_bytes"], Path(tmp), a, b, c, d)
+        return not (r1[0] == "error" or r2[0] == "error" or
+                    (r1[0] == "val" and (r2[0] == "none" or (r2[0] == "val" and r2[1] < r1[1]))))
     with tempfile.TemporaryDirectory(prefix="verif_mon_") as tmp:
         ev = run_monitor(fi["samples_bytes"], Path(tmp))
     return not any(res[0] == "error" for _, _, res in ev)
@@ -301,7 +564,8 @@ def replay_c20(payload):
 
 if __name__ == "__main__":
     import sys
-    rr = suite_monitor(int(sys.argv[1]) if len(sys.argv) > 1 else 1, sys.argv[2] if len(sys.argv) > 2 else "quick")
-    print(rr.name, rr.cases, rr.nontrivial, len(rr.bad), rr.stats)
-    for b in rr.bad[:3]:
-        print(str(b)[:700])
+    for sfn in (suite_monitor, suite_monitor_interleave):
+        rr = sfn(int(sys.argv[1]) if len(sys.argv) > 1 else 1, sys.argv[2] if len(sys.argv) > 2 else "quick")
+        print(rr.name, rr.cases, rr.nontrivial, len(rr.bad), rr.stats)
+        for b in rr.bad[:3]:
+            print(str(b)[:700])
